@@ -82,6 +82,25 @@ CHECKS["C09"] = dict(
     ref="5 (C09), 7 (K2), Appendix E",
 )
 
+CHECKS["C12"] = dict(
+    category="exploration",
+    technique="metamorphic layout variants from tree transformations of reference-encoded movies; model offsets + accessor transcript equality",
+    text=("For each logical movie (plain and fragmented) every single applicable layout transformation - inserted free/unknown box at each top-level "
+          "position and each child slot of each iterating container, sibling permutation, 64-bit header on each box, spare bytes on each fixed/table "
+          "box - is applied, plus random combinations; per-sample answers must match the model for the new layout and all accessors must equal the "
+          "canonical layout's. Completeness per subject over positions is what unit tests with one canned layout cannot give."),
+    note="Trusted base: refenc.rs tree serialiser and model.rs offsets. Interpretations in DESIGN 8.3.",
+    ref="5 (C12), 8.3",
+)
+CHECKS["C18"] = dict(
+    category="exploration",
+    technique="reference-encoded item lists over all item subsets x handler x placement x encodings x unrelated items; accessor oracle",
+    text=("All 16 subsets of the four items crossed with handler type, meta placement, header form, payload lengths, year encodings and random "
+          "unrelated items are synthesised and the four accessors compared with the encoded values / expected absence."),
+    note="Data types limited to the library's table for the four known items; see assumptions in the evidence.",
+    ref="5 (C18), 8.3",
+)
+
 PENDING_REASON = "monitor not yet registered in this commit (implementation in progress, see DESIGN.md section 11); not claimed until its check is silent on the unchanged tree"
 
 def mk():
